@@ -186,6 +186,17 @@ Definition spanned_by_field (s : cstate) (a : key) : bool :=
 Definition cm_names (a : key) (e : centry) : bool :=
   match e with (CellMethod, _, PCm axs) => memb a axs | _ => false end.
 
+(* A field can be copied only if each of its dimension coordinates with data
+   is 1-d (DimensionCoordinate.set_data refuses anything else; insert_dimension
+   with constructs=True makes them 2-d in place, after which Field.copy raises) *)
+Definition copyable_entry (e : centry) : bool :=
+  match e with
+  | (DimCoord, _, PArr (Some sh) true _) => Nat.eqb (length sh) 1
+  | _ => true
+  end.
+
+Definition copyable (s : cstate) : bool := forallb copyable_entry (cons s).
+
 (* ------------------------------------------------------------------ *)
 (* new_identifier                                                      *)
 (* ------------------------------------------------------------------ *)
@@ -200,15 +211,18 @@ Fixpoint dec (fuel n : nat) (acc : string) : string :=
 
 Definition nat_str (n : nat) : string := dec 8 n "".
 
-Fixpoint fresh (fuel n : nat) (base : string) (taken : list key) : key :=
-  let k := base ++ nat_str n in
+(* "while key in self._construct_type: n += 1".  The loop ends after at most
+   len(_construct_type)+1 rounds; the fuel is that bound (None = fuel exhausted,
+   which the step function reports as out of the model) *)
+Fixpoint fresh (fuel n : nat) (base : string) (taken : list key) : option key :=
   match fuel with
-  | O => k
-  | S f => if memb k taken then fresh f (S n) base taken else k
+  | O => None
+  | S f => let k := base ++ nat_str n in
+           if memb k taken then fresh f (S n) base taken else Some k
   end.
 
-Definition new_identifier (s : cstate) (t : ctype) : key :=
-  fresh (S (length (ctys s))) (length (of_type t (cons s))) (key_base t) (map fst (ctys s)).
+Definition new_identifier (s : cstate) (t : ctype) : option key :=
+  fresh (S (S (length (ctys s)))) (length (of_type t (cons s))) (key_base t) (map fst (ctys s)).
 
 (* ------------------------------------------------------------------ *)
 (* set_construct                                                       *)
@@ -219,10 +233,12 @@ Definition psize (p : payload) : option Z := match p with PAxis n => Some n | _ 
 
 Definition set_construct (v : via) (t : ctype) (p : payload) (k : option key)
            (axes : option (list key)) (s : cstate) : cstate * outcome :=
-  if negb (kind_ok t p) then (s, OutOfModel) else
+  if negb (kind_ok t p) || negb (copyable_entry (t, EmptyString, p)) then (s, OutOfModel) else
   (* _check_construct_type *)
   if is_view v && ignored t then (s, Rejected ValueErr) else
-  let key := match k with Some k => k | None => new_identifier s t end in
+  match (match k with Some k => Some k | None => new_identifier s t end) with
+  | None => (s, OutOfModel)
+  | Some key =>
   (* identifier in use by a construct of another type *)
   let clash := match k with
                | Some k => match assoc k (ctys s) with
@@ -252,7 +268,8 @@ Definition set_construct (v : via) (t : ctype) (p : payload) (k : option key)
     | Some _ => (s, Rejected ValueErr)
     | None =>
         (mkS (cset t key p (cons s)) (aset key t (ctys s)) (caxes s) (fshape s) (faxes s), Done)
-    end.
+    end
+  end.
 
 (* ------------------------------------------------------------------ *)
 (* del_construct                                                       *)
@@ -380,6 +397,14 @@ Definition del_data_axes (v : via) (k : option key) (s : cstate) : cstate * outc
       end
   end.
 
+Fixpoint nodupk (l : list key) : bool :=
+  match l with [] => true | a :: r => negb (memb a r) && nodupk r end.
+
+(* no axis occurs twice in the field's data axes or in a construct's axes *)
+Definition dup_free (s : cstate) : bool :=
+  match faxes s with Some ax => nodupk ax | None => true end &&
+  forallb (fun ka => nodupk (snd ka)) (caxes s).
+
 (* ------------------------------------------------------------------ *)
 (* squeeze / transpose / insert_dimension                              *)
 (* ------------------------------------------------------------------ *)
@@ -404,8 +429,13 @@ Fixpoint positions_of {A} (i : Z) (l : list A) : list (Z * A) :=
   match l with [] => [] | x :: r => (i, x) :: positions_of (i + 1) r end.
 
 (* keep the elements whose position is not in [drop] *)
-Definition drop_positions {A} (drop : list Z) (l : list A) : list A :=
-  map snd (filter (fun ix => negb (zmem (fst ix) drop)) (positions_of 0 l)).
+Fixpoint drop_from {A} (i : Z) (drop : list Z) (l : list A) : list A :=
+  match l with
+  | [] => []
+  | x :: r => if zmem i drop then drop_from (i + 1) drop r else x :: drop_from (i + 1) drop r
+  end.
+
+Definition drop_positions {A} (drop : list Z) (l : list A) : list A := drop_from 0 drop l.
 
 Definition nthZ {A} (l : list A) (i : Z) : option A :=
   if i <? 0 then None else nth_error l (Z.to_nat i).
@@ -421,6 +451,7 @@ Definition with_field (s : cstate) (sh : option (list Z)) (ax : option (list key
   mkS (cons s) (ctys s) (caxes s) sh ax.
 
 Definition squeeze (axes : option (list Z)) (inplace : bool) (s : cstate) : cstate * outcome :=
+  if negb inplace && negb (copyable s) then (s, Rejected ValueErr) else
   match fshape s with
   | None => (s, Rejected ValueErr)
   | Some sh =>
@@ -502,6 +533,7 @@ Fixpoint apply_updates (ups : list (option (key * list key))) (cax : list (key *
 
 Definition transpose (axes : option (list Z)) (constructs inplace : bool) (s : cstate)
   : cstate * outcome :=
+  if negb inplace && negb (copyable s) then (s, Rejected ValueErr) else
   match fshape s with
   | None => (s, Rejected ValueErr)
   | Some sh =>
@@ -531,6 +563,7 @@ Definition transpose (axes : option (list Z)) (constructs inplace : bool) (s : c
                       if negb (check_field_axes (cons s) (Some sh') ax')
                       then ((if inplace then with_field s (Some sh') (Some ax) else s), Rejected ValueErr)
                       else if negb constructs then (with_field s (Some sh') (Some ax'), Done)
+                      else if negb (dup_free s) then (s, OutOfModel)
                       else
                         match mapM (transpose_entry ax' (caxes s)) (cons s) with
                         | None => (s, OutOfModel)
@@ -567,13 +600,19 @@ Definition insert_entry (axis : key) (position : Z) (data_axes0 : list key)
   | _ => Some (e, None)
   end.
 
+Definition norm_pos (pos n : Z) : option Z :=
+  if (- n - 1 <=? pos) && (pos <? 0) then Some (pos + n + 1)
+  else if (0 <=? pos) && (pos <=? n) then Some pos else None.
+
 Definition insert_dimension (axis : option key) (pos : Z) (constructs inplace : bool) (s : cstate)
   : cstate * outcome :=
+  if negb inplace && negb (copyable s) then (s, Rejected ValueErr) else
   (* the axis: a new size-1 domain axis, or an existing one of size 1 *)
   let r := match axis with
-           | None => match set_construct VField DomainAxis (PAxis 1) None None s with
-                     | (s1, Done) => inl (s1, new_identifier s DomainAxis)
-                     | (_, o) => inr o end
+           | None => match set_construct VField DomainAxis (PAxis 1) None None s, new_identifier s DomainAxis with
+                     | (s1, Done), Some a => inl (s1, a)
+                     | (_, Done), None => inr OutOfModel
+                     | (_, o), _ => inr o end
            | Some a => match axis_size (cons s) a with
                        | Some 1 => inl (s, a)
                        | _ => inr (Rejected ValueErr) end
@@ -582,66 +621,42 @@ Definition insert_dimension (axis : option key) (pos : Z) (constructs inplace : 
   | inr o => (s, o)
   | inl (s1, a) =>
       let back := if inplace then s1 else s in
-      match faxes s1 with
-      | Some ax =>
-          if memb a ax then (back, Rejected ValueErr) else
-          let nd := Z.of_nat (length ax) in
-          let pos1 := if (- nd - 1 <=? pos) && (pos <? 0) then pos + nd + 1 else pos in
-          let ax' := insert_at pos1 a ax in
+      (* the field's data axes; a negative position is interpreted as the data do *)
+      let dax := match faxes s1 with
+                 | Some ax =>
+                     if memb a ax then None
+                     else
+                       let nd := Z.of_nat (length ax) in
+                       let pos1 := if (- nd - 1 <=? pos) && (pos <? 0) then pos + nd + 1 else pos in
+                       Some (Some (insert_at pos1 a ax), pos1, ax)
+                 | None => Some (None, pos, [])
+                 end in
+      match dax with
+      | None => (back, Rejected ValueErr)
+      | Some (ax', pos1, ax0) =>
           (* the data: Data.insert_dimension *)
-          match fshape s1 with
-          | None =>
-              (* no data: only the data axes change *)
-              if check_field_axes (cons s1) None ax'
-              then (with_field s1 None (Some ax'), Done) else (back, Rejected ValueErr)
-          | Some sh =>
-              let n := Z.of_nat (length sh) in
-              let p := if (- n - 1 <=? pos1) && (pos1 <? 0) then Some (pos1 + n + 1)
-                       else if (0 <=? pos1) && (pos1 <=? n) then Some pos1 else None in
-              match p with
-              | None => (back, Rejected ValueErr)
-              | Some p =>
-                  let sh' := insert_at p 1 sh in
-                  if negb (check_field_axes (cons s1) (Some sh') ax')
-                  then ((if inplace then with_field s1 (Some sh') (Some ax) else s), Rejected ValueErr)
-                  else if negb constructs then (with_field s1 (Some sh') (Some ax'), Done)
-                  else
-                    match mapM (insert_entry a pos1 ax (caxes s1)) (cons s1) with
-                    | None => (s, OutOfModel)
-                    | Some res =>
-                        (mkS (map fst res) (ctys s1) (apply_updates (map snd res) (caxes s1))
-                             (Some sh') (Some ax'), Done)
-                    end
-              end
-          end
-      | None =>
-          match fshape s1 with
-          | None =>
-              if negb constructs then (s1, Done)
+          let dsh := match fshape s1 with
+                     | None => Some None
+                     | Some sh => match norm_pos pos1 (Z.of_nat (length sh)) with
+                                  | Some p => Some (Some (insert_at p 1 sh))
+                                  | None => None end
+                     end in
+          match dsh with
+          | None => (back, Rejected ValueErr)
+          | Some sh' =>
+              let okaxes := match ax' with
+                            | Some a' => check_field_axes (cons s1) sh' a' | None => true end in
+              if negb okaxes
+              then ((if inplace then with_field s1 sh' (faxes s1) else s), Rejected ValueErr)
+              else if negb constructs then (with_field s1 sh' ax', Done)
+              else if negb (dup_free s1) then (s, OutOfModel)
               else
-                match mapM (insert_entry a 0 [] (caxes s1)) (cons s1) with
+                let cpos := match ax' with Some _ => pos1 | None => 0 end in
+                match mapM (insert_entry a cpos ax0 (caxes s1)) (cons s1) with
                 | None => (s, OutOfModel)
                 | Some res =>
-                    (mkS (map fst res) (ctys s1) (apply_updates (map snd res) (caxes s1))
-                         None None, Done)
+                    (mkS (map fst res) (ctys s1) (apply_updates (map snd res) (caxes s1)) sh' ax', Done)
                 end
-          | Some sh =>
-              let n := Z.of_nat (length sh) in
-              let p := if (- n - 1 <=? pos) && (pos <? 0) then Some (pos + n + 1)
-                       else if (0 <=? pos) && (pos <=? n) then Some pos else None in
-              match p with
-              | None => (back, Rejected ValueErr)
-              | Some p =>
-                  let sh' := insert_at p 1 sh in
-                  if negb constructs then (with_field s1 (Some sh') None, Done)
-                  else
-                    match mapM (insert_entry a 0 [] (caxes s1)) (cons s1) with
-                    | None => (s, OutOfModel)
-                    | Some res =>
-                        (mkS (map fst res) (ctys s1) (apply_updates (map snd res) (caxes s1))
-                             (Some sh') None, Done)
-                    end
-              end
           end
       end
   end.
@@ -689,6 +704,7 @@ Definition all_fit (c : list centry) (cax : list (key * list key)) : bool :=
                      | None => true end) cax.
 
 Definition subspace (sel : list (option Z)) (s : cstate) : cstate * outcome :=
+  if negb (copyable s) then (s, Rejected ValueErr) else
   match fshape s with
   | None => (s, Rejected ValueErr)
   | Some sh =>
@@ -700,7 +716,7 @@ Definition subspace (sel : list (option Z)) (s : cstate) : cstate * outcome :=
           | None => (s, Rejected IndexErr)
           | Some newsz =>
               if existsb (Z.eqb 0) newsz then (s, Rejected IndexErr) else
-              if negb (Nat.eqb (length fax) (length sh)) then (s, OutOfModel) else
+              if negb (Nat.eqb (length fax) (length sh)) || negb (dup_free s) then (s, OutOfModel) else
               match axes_sizes (cons s) fax with
               | None => (s, Rejected KeyErr)
               | Some _ =>
@@ -730,12 +746,15 @@ Definition convert (k : key) (full : bool) (s : cstate) : cstate * outcome :=
       match cget t k (cons s) with
       | None => (s, Rejected KeyErr)
       | Some p =>
+          if negb (copyable_entry (t, k, p)) then (s, Rejected ValueErr) else
           match phasdata p, pshape p with
           | true, Some sh =>
               match assoc k (caxes s) with
               | None =>
-                  (* no data axes: a field with properties only *)
-                  (mkS [] [] [] None None, Done)
+                  (* no data axes: a field with properties only; with
+                     full_domain the subset tests raise TypeError as soon as
+                     another construct has axes *)
+                  if full then (s, OutOfModel) else (mkS [] [] [] None None, Done)
               | Some dax =>
                   match axes_sizes (cons s) dax with
                   | None => (s, Rejected KeyErr)
@@ -755,6 +774,7 @@ Definition convert (k : key) (full : bool) (s : cstate) : cstate * outcome :=
                                              | Some a => subset a dax | None => false end
                                       end in
                         let kept := filter keep (cons s) in
+                        if negb (forallb copyable_entry kept) then (s, Rejected ValueErr) else
                         (* coordinate references *)
                         let ref_step (acc : option (list centry * list centry)) (e : centry) :=
                             match acc, e with
@@ -812,7 +832,7 @@ Definition step (s : cstate) (o : op) : cstate * outcome :=
   | DelData => del_data s
   | SetDataAxes v axs k => set_data_axes v axs k s
   | DelDataAxes v k => del_data_axes v k s
-  | Copy => (s, Done)
+  | Copy => if copyable s then (s, Done) else (s, Rejected ValueErr)
   | Subspace sel => subspace sel s
   | Squeeze a i => squeeze a i s
   | Transpose a c i => transpose a c i s
@@ -851,8 +871,8 @@ Definition domain_view (s : cstate) : list centry :=
 (* ------------------------------------------------------------------ *)
 (* the code as it stood at the pinned commit (superseded)              *)
 (* ------------------------------------------------------------------ *)
-Definition new_identifier_old (s : cstate) (t : ctype) : key :=
-  fresh (S (length (cons s))) (length (of_type t (cons s))) (key_base t)
+Definition new_identifier_old (s : cstate) (t : ctype) : option key :=
+  fresh (S (S (length (cons s)))) (length (of_type t (cons s))) (key_base t)
         (map (fun e => snd (fst e)) (of_type t (cons s))).
 
 (* no clash test, no resize test, the axes of a replaced construct are kept
@@ -861,7 +881,9 @@ Definition set_construct_old (v : via) (t : ctype) (p : payload) (k : option key
            (axes : option (list key)) (s : cstate) : cstate * outcome :=
   if negb (kind_ok t p) then (s, OutOfModel) else
   if is_view v && ignored t then (s, Rejected ValueErr) else
-  let key := match k with Some k => k | None => new_identifier_old s t end in
+  match (match k with Some k => Some k | None => new_identifier_old s t end) with
+  | None => (s, OutOfModel)
+  | Some key =>
   if is_array t then
     match axes with
     | Some a =>
@@ -877,7 +899,8 @@ Definition set_construct_old (v : via) (t : ctype) (p : payload) (k : option key
     | Some _ => (s, Rejected ValueErr)
     | None =>
         (mkS (cset t key p (cons s)) (aset key t (ctys s)) (caxes s) (fshape s) (faxes s), Done)
-    end.
+    end
+  end.
 
 (* data_axes() and the cell methods as the (possibly ignoring) view sees
    them; no test against the field's data on the cfdm and domain routes *)
